@@ -7,7 +7,7 @@ import RosedVerif.Model.GenEq.Block
 import RosedVerif.Model.GenEq.Wrap
 import RosedVerif.Model.GenEq.Paras
 import RosedVerif.Model.GenEq.InstA
-import RosedVerif.Model.Placeholder
+import RosedVerif.Model.GenEq.AffixPlaceholder
 set_option linter.unusedVariables false
 set_option linter.unusedSectionVars false
 set_option linter.unusedSimpArgs false
@@ -15,34 +15,6 @@ namespace RosedVerif.GenCodeEq
 open RosedVerif
 
 variable {α : Type} [DecidableEq α] (cx : Ctx α)
-
-/-- the loop `for strings.ContainsRune(sep, c) { c++ }`: with one unit of fuel more than the hand
-model's search has tests it returns what the search returns, provided that is outside `sep` -/
-theorem whileM_phSearch (sep : List α) (cond : α → R Bool) (body : α → R α)
-    (hc : ∀ c, cond c = pure (decide (c ∈ sep))) (hb : ∀ c, body c = pure (cx.phNext c)) :
-    ∀ (n : Nat) (c : α), phSearch cx sep n c ∉ sep →
-      Go.whileM (n + 1) cond body c = pure (phSearch cx sep n c) := by
-  intro n
-  induction n with
-  | zero =>
-    intro c hf
-    simp only [phSearch] at hf
-    simp only [Go.whileM, hc, pure_bind, hf, decide_false, Bool.false_eq_true, if_false, phSearch]
-  | succ n ih =>
-    intro c hf
-    rw [Go.whileM, hc, pure_bind]
-    by_cases hm : c ∈ sep
-    · simp only [phSearch, hm, if_true] at hf ⊢
-      simp only [decide_true, if_true, hb, pure_bind]
-      exact ih _ hf
-    · simp only [phSearch, hm, if_false, decide_false, Bool.false_eq_true]
-
-/-- … at the fuel and the start value of Editor.WrapOpts, in a context where the search is known to
-end outside the separator (`Ctx.PhFresh`; instance A: `phFresh_cxA`) -/
-theorem whileM_placeholder (hph : cx.PhFresh) (sep : List α) (cond : α → R Bool) (body : α → R α)
-    (hc : ∀ c, cond c = pure (decide (c ∈ sep))) (hb : ∀ c, body c = pure (cx.phNext c)) :
-    Go.whileM (sep.length + 1) cond body cx.phA = pure (cx.placeholder sep) :=
-  whileM_phSearch cx sep cond body hc hb sep.length cx.phA (hph sep)
 
 theorem editorWrapOpts_regenerated (h : Gen.Code.editorWrapOpts_extracted = true)
     (hd : DefaultsOk cx) (hpos : ∀ a, 0 < cx.blen a) (hph : cx.PhFresh) (ed : Editor α) (width : Int)
@@ -54,9 +26,7 @@ theorem editorWrapOpts_regenerated (h : Gen.Code.editorWrapOpts_extracted = true
          blockJoin_regenerated cx (by decide), editorApplyGParagraphsOpts_regenerated cx (by decide) hd hpos]
        go_norm
        simp only [ite_pure, pure_bind, map_eq_pure_bind, bind_assoc]
-       -- the placeholder loop: condition and body restated over the model, loop = the model's search
-       simp (disch := intro c; first | rfl | (go_norm; go_close)) only [whileM_placeholder cx hph, pure_bind,
-         Go.stringOfRune]
+       simp only [affixPlaceholder_regenerated cx (by decide) hph, pure_bind, Go.stringOfRune]
        split
        · simp only [bind_pure]
          all_goals
@@ -77,10 +47,6 @@ theorem editorWrap_regenerated (h : Gen.Code.editorWrap_extracted = true)
     | exact absurd h (by decide)
     | (unfold Gen.Code.editorWrap
        simp only [editorWrapOpts_regenerated cx (by decide) hd hpos hph, bind_pure])
-
-/-- the hypothesis `PhFresh` of `editorWrapOpts_regenerated` holds at the real instance (pigeonhole,
-Model/Placeholder.lean) -/
-theorem phFresh_cxA : cxA.PhFresh := _root_.RosedVerif.phFresh_cxA
 
 theorem editorWrapOpts_cxA (h : Gen.Code.editorWrapOpts_extracted = true) (ed : Editor Int) (width : Int) (o : Options Int) :
     Gen.Code.editorWrapOpts cxA ed width o = ed.wrapOpts cxA width o :=
